@@ -25,28 +25,28 @@ theorem append_snd (canAppend : Entry → Bool) (L : Log) (mk : Nat → List Nat
   simp only
   split <;> rfl
 
-theorem addOp_log (acl : Acl) (s : Store) (mk : Nat → List Nat → Entry) :
-    (s.addOp acl mk).1.log = (append acl.canAppend s.log mk).1 := by
-  unfold Store.addOp
+theorem addOp0_log (acl : Acl) (s : Store) (mk : Nat → List Nat → Entry) :
+    (s.addOp0 acl mk).1.log = (append acl.canAppend s.log mk).1 := by
+  unfold Store.addOp0
   split <;> (rename_i h; rw [h])
 
-theorem addOp_snd (acl : Acl) (s : Store) (mk : Nat → List Nat → Entry) :
-    (s.addOp acl mk).2 = (append acl.canAppend s.log mk).2 := by
-  unfold Store.addOp
+theorem addOp0_snd (acl : Acl) (s : Store) (mk : Nat → List Nat → Entry) :
+    (s.addOp0 acl mk).2 = (append acl.canAppend s.log mk).2 := by
+  unfold Store.addOp0
   split <;> (rename_i h; rw [h])
 
-theorem addOp_remoteHeads (acl : Acl) (s : Store) (mk : Nat → List Nat → Entry) :
-    (s.addOp acl mk).1.remoteHeads = s.remoteHeads := by
-  unfold Store.addOp
+theorem addOp0_remoteHeads (acl : Acl) (s : Store) (mk : Nat → List Nat → Entry) :
+    (s.addOp0 acl mk).1.remoteHeads = s.remoteHeads := by
+  unfold Store.addOp0
   split <;> rfl
 
-theorem addOp_localHeads (acl : Acl) (s : Store) (mk : Nat → List Nat → Entry) :
-    (s.addOp acl mk).1.localHeads =
+theorem addOp0_localHeads (acl : Acl) (s : Store) (mk : Nat → List Nat → Entry) :
+    (s.addOp0 acl mk).1.localHeads =
       if acl.canAppend (mk (appendTime s.log) (appendNext s.log)) then
         some [(mk (appendTime s.log) (appendNext s.log)).hash]
       else s.localHeads := by
   have h2 := append_snd acl.canAppend s.log mk
-  unfold Store.addOp
+  unfold Store.addOp0
   split
   · rename_i L' e h
     rw [h] at h2
@@ -59,6 +59,58 @@ theorem addOp_localHeads (acl : Acl) (s : Store) (mk : Nat → List Nat → Entr
     · rename_i hc
       injection h2 with h2
       simp only [hc, if_true, h2]
+    · cases h2
+
+/-- `addOp` is `addOp0` with another `_localHeads` (and only when the write went through) -/
+theorem addOp_eq (acl : Acl) (s : Store) (mk : Nat → List Nat → Entry) :
+    s.addOp acl mk =
+      match (s.addOp0 acl mk).2 with
+      | .error _ => s.addOp0 acl mk
+      | .ok e => ({ (s.addOp0 acl mk).1 with
+          localHeads := some (e.hash :: keptHeads s.localHeads (s.addOp0 acl mk).1.log) }, .ok e) := by
+  unfold Store.addOp
+  rcases h : s.addOp0 acl mk with ⟨s', r⟩
+  cases r <;> rfl
+
+theorem addOp_log (acl : Acl) (s : Store) (mk : Nat → List Nat → Entry) :
+    (s.addOp acl mk).1.log = (append acl.canAppend s.log mk).1 := by
+  rw [addOp_eq, ← addOp0_log]
+  split <;> rfl
+
+theorem addOp_snd (acl : Acl) (s : Store) (mk : Nat → List Nat → Entry) :
+    (s.addOp acl mk).2 = (append acl.canAppend s.log mk).2 := by
+  rw [addOp_eq, ← addOp0_snd]
+  split
+  · rfl
+  · rename_i e h; exact h.symm
+
+theorem addOp_remoteHeads (acl : Acl) (s : Store) (mk : Nat → List Nat → Entry) :
+    (s.addOp acl mk).1.remoteHeads = s.remoteHeads := by
+  rw [addOp_eq, ← addOp0_remoteHeads acl s mk]
+  split <;> rfl
+
+theorem addOp_localHeads (acl : Acl) (s : Store) (mk : Nat → List Nat → Entry) :
+    (s.addOp acl mk).1.localHeads =
+      if acl.canAppend (mk (appendTime s.log) (appendNext s.log)) then
+        some ((mk (appendTime s.log) (appendNext s.log)).hash ::
+          keptHeads s.localHeads (append acl.canAppend s.log mk).1)
+      else s.localHeads := by
+  have h2 := addOp0_snd acl s mk
+  rw [append_snd] at h2
+  rw [addOp_eq]
+  split
+  · rename_i e h
+    rw [h] at h2
+    split at h2
+    · cases h2
+    · rename_i hc
+      rw [addOp0_localHeads]; simp only [hc]; rfl
+  · rename_i e h
+    rw [h] at h2
+    split at h2
+    · rename_i hc
+      injection h2 with h2
+      simp only [hc, if_true, h2, addOp0_log]
     · cases h2
 
 /-- the side conditions of a local write (those of `Step.appendOk`), needed only when the access
@@ -96,7 +148,8 @@ theorem addOp_covers {acl : Acl} {U : List Entry} (hM : ClockMono U) {s : Store}
   · obtain ⟨_, h2, _, h4⟩ := hw hcan
     simp only [if_true, Option.getD_some]
     exact (append_covers hM acl.canAppend s.log mk hG h2 h4 hcan).mono_heads
-      (fun x hx => List.mem_append_left _ hx)
+      (fun x hx => List.mem_append_left _ (by
+        rcases List.mem_singleton.mp hx with rfl; exact List.mem_cons_self))
 
 /-! ### `replicationLoadComplete` -/
 
